@@ -97,6 +97,7 @@ func (s scen) judge(e *sched.Exec) (string, string, *sched.Failure) {
 		rtDone   *interop.InitRuntimeDoneData
 		rtDoneEv stack.LifeEvent
 		report   bool
+		reportEv stack.LifeEvent
 	}
 	var inits []*initBlock
 	var cur *initBlock
@@ -145,7 +146,7 @@ func (s scen) judge(e *sched.Exec) (string, string, *sched.Failure) {
 			if string(d.Phase) != cur.phase {
 				failf("1", "init-phase-tag", "InitReport tagged %q inside an initialisation tagged %q", d.Phase, cur.phase)
 			}
-			cur.report = true
+			cur.report, cur.reportEv = true, ev
 			cur = nil
 		case "InvokeStart":
 			invs = append(invs, &invBlock{start: ev.Data.(interop.InvokeStartData)})
@@ -264,6 +265,16 @@ func (s scen) judge(e *sched.Exec) (string, string, *sched.Failure) {
 		for n, k := range names {
 			if k != 1 {
 				failf("1", "extension-init-duplicate", "initialisation %d has %d status lines for extension %s", bi, k, n)
+			}
+		}
+		// one status line per known extension: every extension this initialisation tried to start (started, or failed to)
+		if b.report {
+			for _, k := range w.K.Log {
+				if (k.Kind == "exec" || k.Kind == "execfail") && strings.HasPrefix(k.Path, "/opt/extensions/") && sched.HB(b.start.At, k.At) && sched.HB(k.At, b.reportEv.At) {
+					if n := strings.TrimPrefix(k.Path, "/opt/extensions/"); names[n] == 0 {
+						failf("1", "extension-init-missing", "initialisation %d tried to start extension %s (%s) but reports no status line for it", bi, n, k.Kind)
+					}
+				}
 			}
 		}
 		if s.bound == 0 && bi == 0 && s.F != nil && s.F.At >= 1 {
